@@ -31,6 +31,7 @@ MIN_NONTRIVIAL_FRACTION = 0.2
 RULE += " Added after the seeded rounds: " + 'A second call on the same loop / swarm / nucleus must respect the same bound; generators and workers raise one of 16 exception types.'
 RULE += " The provider's text replies are generated (blank, whitespace-only, error-looking, literal)."
 RULE += ' The judged call may be preceded by 1, 20 or 70 earlier calls on the same object (bounded internal logs). Stub exceptions are recognised by identity, not by message (they may carry none).'
+RULE += " Round 8: `init` - the loop / swarm is constructed with other limits (0, 4, 7) and the limits under test are assigned to its public attributes, before the first call or between two calls."
 EXHAUSTIVE_NOTE = {"quick": "heal: 5 limits x scripts of length 1..3 over 6 behaviours (1290); swarm: 5x5 limits x worker scripts length 1..2 over 4 behaviours (500); tools: 5 limits x round scripts length 1..2 over 5 round kinds x auto (300)",
                    "thorough": "same finite sub-domains, complete"}
 
@@ -46,9 +47,12 @@ def strategy(tier):
     # earlier calls on the same object before the judged one: none, one, or many (bounded internal logs fill up over a long life)
     again = st.sampled_from([False, False, False, True, True, 20, 70])
     exc = st.integers(0, 15)
-    heal = st.fixed_dictionaries({"kind": st.just("heal"), "again": again, "exc": exc, "max_retries": st.integers(0, 4),
+    # `init`: the limits the object is *constructed* with; the limits under test are then assigned to its public attributes (after the warm-up calls,
+    # if any): a budget is whatever the object is configured with when the call is made
+    init = st.sampled_from([None, None, None, 0, 4, 7])
+    heal = st.fixed_dictionaries({"kind": st.just("heal"), "again": again, "exc": exc, "max_retries": st.integers(0, 4), "init": init,
                                   "script": st.lists(st.sampled_from(GEN + ["invalid", "fresh-invalid"]), min_size=1, max_size=6)})
-    swarm = st.fixed_dictionaries({"kind": st.just("swarm"), "again": again, "exc": exc, "max_regen": st.integers(0, 4), "max_steps": st.integers(0, 4),
+    swarm = st.fixed_dictionaries({"kind": st.just("swarm"), "again": again, "exc": exc, "max_regen": st.integers(0, 4), "max_steps": st.integers(0, 4), "init": init,
                                    "threshold": st.sampled_from([0.9, 0.9, 0.5, 0.0, 1.0]),
                                    "workers": st.lists(st.lists(st.sampled_from(WRK + ["fresh", "fresh"]), min_size=1, max_size=5), min_size=1, max_size=4)})
     tools = st.fixed_dictionaries({"kind": st.just("tools"), "again": again, "max_iter": st.integers(0, 4), "auto": st.sampled_from([True, True, True, False]),
@@ -59,6 +63,11 @@ def strategy(tier):
 
 
 def enumerate_cases(tier):
+    for mr in range(0, 5):
+        for init in (0, 4, 7):
+            for again in (False, True):
+                for script in (["invalid"], ["invalid", "invalid", "invalid", "valid"], ["fresh-invalid", "valid"]):
+                    yield {"kind": "heal", "max_retries": mr, "script": script, "init": init, "again": again}
     for mi in range(5):
         for final in TEXTS[1:]:
             for rt in ("round", ""):
@@ -176,8 +185,12 @@ def _heal(case, out):
         def __getattr__(self, name):
             return getattr(real, name)
 
-    loop = ChaperoneLoop(generator=gen, chaperone=DistinctErrors() if len(script) % 2 == 0 else real, schema=schema, max_retries=mr, silent=True)
+    init = case.get("init")
+    loop = ChaperoneLoop(generator=gen, chaperone=DistinctErrors() if len(script) % 2 == 0 else real, schema=schema, max_retries=mr if init is None else init, silent=True)
     out.label("heal")
+    if init is not None and not case.get("again"):
+        loop.max_retries = mr
+        out.label("limit-assigned-after-construction")
     for _w in range(int(case.get("again") or 0)):
         # earlier heal() calls on the same loop object must not eat into (or extend) the budget of the next one
         try:
@@ -186,6 +199,9 @@ def _heal(case, out):
             pass
         del calls[:]
         DistinctErrors.n = 0
+    if init is not None and case.get("again"):
+        loop.max_retries = mr
+        out.label("limit-assigned-between-calls")
     try:
         res = loop.heal("make a quote")
     except Exception as e:
@@ -286,10 +302,14 @@ def _swarm(case, out):
 
         return SimpleWorker(id=name, work_function=work)
 
+    init = case.get("init")
     sw = RegenerativeSwarm(worker_factory=factory, summarizer=lambda mem: ["hint"], entropy_threshold=case["threshold"],
-                           max_steps_per_worker=case["max_steps"], max_regenerations=case["max_regen"], silent=True)
+                           max_steps_per_worker=case["max_steps"] if init is None else init, max_regenerations=case["max_regen"] if init is None else init, silent=True)
     out.label("swarm")
     mg, ms = case["max_regen"], case["max_steps"]
+    if init is not None and not case.get("again"):
+        sw.max_steps_per_worker, sw.max_regenerations = ms, mg
+        out.label("limit-assigned-after-construction")
     for _w in range(int(case.get("again") or 0)):
         try:
             sw.supervise("warm-up")
@@ -297,6 +317,9 @@ def _swarm(case, out):
             pass
         del factory_calls[:]
         steps.clear()
+    if init is not None and case.get("again"):
+        sw.max_steps_per_worker, sw.max_regenerations = ms, mg
+        out.label("limit-assigned-between-calls")
     try:
         res = sw.supervise("task")
     except Exception as e:
